@@ -78,6 +78,17 @@ pub fn check_ops<D: Ops>(a: &D, b: &D, ma: &UModel, mb: &UModel, name: &str) -> 
     ensure!(left == right, "{name}: union is not associative: {left:?} vs {right:?}");
     reprs::same(&left, &ma.union(mb).union(&ma.converse()), &format!("{name}: (a u b) u converse(a)"))?;
 
+    // operations applied to the results of other operations
+    if ma.order().max(mb.order()) <= 64 {
+        let x = guarded(|| a.union(b).complement().converse()).map_err(|p| format!("{name}: union().complement().converse() panicked: {p}"))?;
+        reprs::same(&x, &ma.union(mb).complement().converse(), &format!("{name}: a.union(b).complement().converse()"))?;
+        let y = guarded(|| a.complement().union(&b.converse())).map_err(|p| format!("{name}: complement().union(converse()) panicked: {p}"))?;
+        reprs::same(&y, &ma.complement().union(&mb.converse()), &format!("{name}: a.complement().union(&b.converse())"))?;
+        let z = guarded(|| a.converse().complement()).map_err(|p| format!("{name}: converse().complement() panicked: {p}"))?;
+        let z2 = guarded(|| a.complement().converse()).map_err(|p| format!("{name}: complement().converse() panicked: {p}"))?;
+        ensure!(z == z2, "{name}: complement and converse do not commute: {z:?} vs {z2:?}");
+    }
+
     ensure!(*a == a0 && *b == b0, "{name}: an operation changed its operand");
     Ok(())
 }
@@ -92,6 +103,18 @@ fn check_filter(g: &AdjacencyMap, m: &UModel, keep: &BTreeSet<usize>, name: &str
     ensure!(all == *g, "{name}: filter_vertices(|_| true) is not the identity");
     let twice = guarded(|| f.filter_vertices(|v| keep.contains(&v))).map_err(|p| format!("{name}: filtering twice panicked: {p}"))?;
     ensure!(twice == f, "{name}: filtering twice differs from filtering once");
+    // operations on a filtered digraph (its vertex set need not contain 0 or be a run)
+    if m.order() <= 64 {
+        let mi = m.induced(keep);
+        if mi.order() >= 1 {
+            let c = guarded(|| f.complement()).map_err(|p| format!("{name}: filter_vertices().complement() panicked: {p}"))?;
+            reprs::same(&c, &mi.complement(), &format!("{name}: filter_vertices({keep:?}).complement()"))?;
+            let u = guarded(|| f.union(g)).map_err(|p| format!("{name}: filter_vertices().union(original) panicked: {p}"))?;
+            ensure!(u == *g, "{name}: the union of an induced subdigraph with the original is not the original");
+            let cv = guarded(|| f.converse()).map_err(|p| format!("{name}: filter_vertices().converse() panicked: {p}"))?;
+            reprs::same(&cv, &mi.converse(), &format!("{name}: filter_vertices({keep:?}).converse()"))?;
+        }
+    }
     ensure!(*g == g0, "{name}: filter_vertices changed its operand");
     Ok(())
 }
